@@ -109,6 +109,32 @@ Proof.
     pose proof (Ha n) as H1. destruct (eval_thunk n a) as [va|ea|]; simpl in *; auto.
     pose proof (Hb n) as H2. destruct (eval_thunk n b) as [vb|eb|]; simpl in *; auto.
     destruct va, vb; simpl; eauto.
+  - (* PRecFields *)
+    intros R. apply prim1; [reflexivity|]. intros a n Ha. simpl. unfold get_rec.
+    pose proof (Ha n) as H1. destruct (eval_thunk n a) as [va|ea|]; simpl in *; auto.
+    destruct H1 as [fs [-> HF]]. simpl. eexists. split; [reflexivity|].
+    apply Forall_forall. intros t Hin. apply in_map_iff in Hin. destruct Hin as [ft [<- Hin]].
+    intros k. simpl. destruct k; simpl; eauto.
+  - (* PRecValues *)
+    intros R. apply prim1; [reflexivity|]. intros a n Ha. simpl. unfold get_rec.
+    pose proof (Ha n) as H1. destruct (eval_thunk n a) as [va|ea|]; simpl in *; auto.
+    destruct H1 as [fs [-> HF]]. simpl. eexists. split; [reflexivity|].
+    apply Forall_forall. intros t Hin. apply in_map_iff in Hin. destruct Hin as [ft [<- Hin]].
+    pose proof (sort_fields_Forall _ _ HF) as Hs. rewrite Forall_forall in Hs. apply (Hs ft Hin).
+  - (* PRecHas *)
+    intros R. apply prim2; [reflexivity|]. intros k a n Hk Ha. simpl. unfold get_str, get_rec.
+    pose proof (Hk n) as H1. destruct (eval_thunk n k) as [vk|ek|]; simpl in *; auto.
+    destruct H1 as [s ->].
+    pose proof (Ha n) as H2. destruct (eval_thunk n a) as [va|ea|]; simpl in *; auto.
+    destruct H2 as [fs [-> HF]]. simpl. eauto.
+  - (* PRecGet *)
+    intros R. apply prim2; [reflexivity|]. intros k a n Hk Ha. simpl. unfold get_str, get_rec.
+    pose proof (Hk n) as H1. destruct (eval_thunk n k) as [vk|ek|]; simpl in *; auto.
+    destruct H1 as [s ->].
+    pose proof (Ha n) as H2. destruct (eval_thunk n a) as [va|ea|]; simpl in *; auto.
+    destruct H2 as [fs [-> HF]].
+    destruct (assoc s fs) as [t|] eqn:Has; simpl; auto.
+    pose proof (assoc_Forall (fun t => TT (fun v => R v) t) _ _ _ HF Has) as Ht. apply (Ht n).
 Qed.
 
 (* the property for the concrete signature table of the model *)
